@@ -110,10 +110,46 @@ def ensure_impl(flavor='hooks', targets=('uscxml', 'uscxml_transform', 'uscxml-t
                          timeout=600)
             if rc != 0:
                 raise BuildError('cmake configure failed:\n' + out[-3000:])
+        hashes = _source_hashes()
+        _touch_changed(d, hashes)
         rc, out = sh(['ninja', '-C', d] + list(targets), timeout=3000)
         if rc != 0:
             raise BuildError('the working tree of %s does not build (%s):\n%s' % (REPO, flavor, out[-6000:]))
+        with open(os.path.join(d, '.srchash.json'), 'w') as f:
+            json.dump(hashes, f)
     return d
+
+
+def _source_hashes():
+    """content hashes of the sources the build reads (ninja goes by mtime only; an edit within the
+    clock tick of a running compile would otherwise leave a stale object behind)"""
+    import hashlib
+    res = {}
+    for top in ('src', 'contrib/src', 'contrib/cmake', 'CMakeLists.txt', 'config.h.in'):
+        p = os.path.join(REPO, top)
+        files = [p] if os.path.isfile(p) else [os.path.join(r, f) for r, _, fs in os.walk(p) for f in fs]
+        for f in files:
+            try:
+                with open(f, 'rb') as fh:
+                    res[os.path.relpath(f, REPO)] = hashlib.sha1(fh.read()).hexdigest()
+            except OSError:
+                pass
+    return res
+
+
+def _touch_changed(d, hashes):
+    try:
+        with open(os.path.join(d, '.srchash.json')) as f:
+            old = json.load(f)
+    except (OSError, ValueError):
+        return
+    now = time.time()
+    for rel, h in hashes.items():
+        if old.get(rel) != h:
+            try:
+                os.utime(os.path.join(REPO, rel), (now, now))
+            except OSError:
+                pass
 
 
 def impl_compile_flags(flavor='hooks'):
